@@ -111,6 +111,8 @@ class RecQ:
             val = ("failed", self.dec.get("_lastget"))
         elif isinstance(v, Item):
             val = ("item", v.i)
+        elif v is None and self.dec.get("_none_pulled"):
+            val = ("item", self.dec["_none_pulled"].pop(0))  # an input whose VALUE is None
         elif isinstance(v, tuple) and v and v[0] == "res":
             val = ("res", v[1])
         else:
@@ -192,7 +194,7 @@ def extract_worker(lp, nmax, fail):
     return paths, st
 
 
-def extract_consumer(lp, T, nmax, early, second_round=False):
+def extract_consumer(lp, T, nmax, early, second_round=False, none_inputs=False):
     paths = []
     classes = _classes(lp)
     stats = {}
@@ -207,6 +209,10 @@ def extract_consumer(lp, T, nmax, early, second_round=False):
                 nm = ["qp", "qr"][len(created) % 2] + ("" if len(created) < 2 else "'")
                 created.append(nm)
                 RecQ.__init__(s, e, nm, log, dec, nmax + T + 2, classes)
+                cap = a[0] if a else k.get("maxsize", 0)
+                if not isinstance(cap, int):
+                    raise Inconclusive(f"queue created with a capacity that is not a plain integer: {cap!r}")
+                dec["_cap_" + nm] = max(cap, 0)  # 0 = unbounded (queue.Queue semantics)
 
         old_queue, old_start = lp.queue, lp.Collector.start
         lp.queue = types.SimpleNamespace(Queue=StubQ, Empty=realqueue.Empty)
@@ -223,6 +229,12 @@ def extract_consumer(lp, T, nmax, early, second_round=False):
                 if s.i < n:
                     s.i += 1
                     log.append(dict(kind="pull", i=s.i - 1))
+                    # the VALUE of an input is arbitrary: at most one of them is None
+                    if none_inputs and not dec.get("_none_once") and e.branch(z3.Bool(f"input_{s.i - 1}_is_None")):
+                        dec["_none_once"] = True
+                        dec["_none_index"] = s.i - 1
+                        dec.setdefault("_none_pulled", []).append(s.i - 1)
+                        return None
                     return Item(s.i - 1)
                 raise StopIteration
 
@@ -250,6 +262,9 @@ def extract_consumer(lp, T, nmax, early, second_round=False):
             except Boom:
                 log.append(dict(kind="RAISE"))
                 log.append(dict(kind="END"))
+            except Exception as exc:  # noqa: BLE001 - an exception made up by the pool itself reaches the consumer
+                log.append(dict(kind="RAISE", foreign=type(exc).__name__))
+                log.append(dict(kind="END"))
             # the pool object must be reusable
             if pool is not None:
                 ok = (pool._active_threads <= 0 and pool._to_process is None and pool._results is None) \
@@ -266,12 +281,12 @@ def extract_consumer(lp, T, nmax, early, second_round=False):
 
 
 class Composition:
-    def __init__(self, lp, T, nmax, fail=False, early=False, query_timeout_s=600):
+    def __init__(self, lp, T, nmax, fail=False, early=False, query_timeout_s=600, none_inputs=False):
         t0 = time.time()
         self.query_timeout_s = query_timeout_s
         self.T, self.nmax, self.fail, self.early = T, nmax, fail, early
         self.WP, wst = extract_worker(lp, nmax, fail)
-        self.CP, cst = extract_consumer(lp, T, nmax, early)
+        self.CP, cst = extract_consumer(lp, T, nmax, early, none_inputs=none_inputs)
         self.extract_stats = dict(worker_paths=len(self.WP), consumer_paths=len(self.CP), worker_explore=wst.as_dict(),
                                   consumer_explore=cst.as_dict(), extract_s=round(time.time() - t0, 2))
         self.inconclusive = wst.inconclusive + cst.inconclusive
@@ -309,6 +324,12 @@ class Composition:
                 s.add(ts[t][k] < ts[t][k + 1])
             s.add(ts[t][0] >= 0)
         blocked, finished, limit_hit = {}, {}, []
+        capQp, capQr = self.capQp, self.capQr = z3.Int("capQp"), z3.Int("capQr")  # 0 = unbounded
+        bounded = self.bounded_queues = any(path[1].get("_cap_qp", 0) or path[1].get("_cap_qr", 0) for path in P["c"])
+        if bounded:  # (the code under test creates unbounded queues: nothing to encode then)
+            for pi, path in enumerate(P["c"]):
+                s.add(z3.Implies(sel["c"] == pi, z3.And(capQp == path[1].get("_cap_qp", 0), capQr == path[1].get("_cap_qr", 0))))
+        foreign = self.foreign_raises = []
         wgets, wputs, cputs_qp, cgets_qr = [], [], [], []
         emits, raises, normal_end, state_bad, items_put = [], [], [], [], []
         late = self.after_failure = []  # the consumer yields a result / hands out a new input although it already holds a failure
@@ -396,6 +417,8 @@ class Composition:
                                                         kindQp(j) == (K_SENT if val[0] == "sent" else K_PLAIN),
                                                         idxQp(j) == (val[1] if val[0] == "item" else -1))))
                             cputs_qp.append((ex, ts[t][k]))
+                            if bounded:
+                                bl.append(z3.And(nxt, capQp > 0, NputQp - NgetQp >= capQp))  # put on a full bounded queue blocks
                             if val[0] == "item":
                                 items_put.append(ex)
                                 if got_failure:
@@ -407,6 +430,8 @@ class Composition:
                             pq["qr"] += 1
                             sr = S[t][j]
                             wputs.append((ex, sr, ts[t][k]))
+                            if bounded:
+                                bl.append(z3.And(nxt, capQr > 0, NputQr - NgetQr >= capQr))  # put on a full bounded queue blocks
                             base = z3.And(sr >= 0, sr < NputQr, tsPutQr(sr) == ts[t][k])
                             if val[0] == "sent":  # a sentinel made up by the worker itself
                                 s.add(z3.Implies(ex, z3.And(base, kindQr(sr) == K_SENT, idxQr(sr) == -1)))
@@ -431,6 +456,8 @@ class Composition:
                             late.append(ex)
                     elif kind == "RAISE":
                         raises.append(ex)
+                        if ev.get("foreign"):
+                            foreign.append(ex)
                     elif kind == "END":
                         if t == "c":
                             if not any(e2["kind"] == "RAISE" for e2 in log):
@@ -462,6 +489,15 @@ class Composition:
             s.add(z3.Implies(ex, r < NputQr))
         for w in range(T):
             s.add(z3.Implies(z3.Not(spawned[w]), cut[f"w{w}"] == 0))
+        # a put on a bounded queue happens only at an instant at which the queue is not full
+        for ex, sr_, tt in (wputs if bounded else []):
+            # the FIFO rank of a put is the number of puts before it (ranks are a bijection onto 0..Nput-1 ordered like the timestamps)
+            nget = z3.Sum([z3.If(z3.And(e2, t2 < tt), 1, 0) for e2, t2 in cgets_qr] + [z3.IntVal(0)])
+            s.add(z3.Implies(z3.And(ex, capQr > 0), sr_ - nget < capQr))
+        for ex, tt in (cputs_qp if bounded else []):
+            nput = z3.Sum([z3.If(z3.And(e2, t2 < tt), 1, 0) for e2, t2 in cputs_qp] + [z3.IntVal(0)])
+            nget = z3.Sum([z3.If(z3.And(e2, t2 < tt), 1, 0) for e2, _, t2 in wgets] + [z3.IntVal(0)])
+            s.add(z3.Implies(z3.And(ex, capQp > 0), nput - nget < capQp))
         # a get may time out only while its queue is empty at that instant
         for ex, tt, q, who, probe in timeouts:
             if q == "qp":
@@ -528,6 +564,8 @@ class Composition:
             nxt = log[c] if c < len(log) else None
             if t == "c" and any(ev["kind"] == "consumer-raises" for ev in log[:c]):
                 out["consumer_raises"] = True
+            if t == "c" and self.P[t][pi][1].get("_none_index") is not None:
+                out["none_input"] = self.P[t][pi][1]["_none_index"]
             out["threads"][t] = dict(executed=[list(map(str, d)) for d in evs],
                                      next=(str((nxt["kind"], nxt.get("q"))) if nxt else None))
         allev.sort()
